@@ -116,7 +116,7 @@ def coq_text(s):
 def tkname(n):
     if n not in TOKEN_KINDS:
         return "(UnknownTk %s)" % n   # makes Generated.v fail to compile: a new token kind needs a model update
-    return n
+    return "T" + n
 
 
 # ---------------------------------------------------------------- lexer tables
@@ -183,12 +183,105 @@ def lexer_tables(notes):
     return "".join(out)
 
 
+# ---------------------------------------------------------------- parser tables
+
+LEVELS = {"assignment": "LvAssignment", "or": "LvOr", "and": "LvAnd", "equality": "LvEquality", "comparison": "LvComparison",
+          "addition": "LvAddition", "multiplication": "LvMultiplication", "unary": "LvUnary", "access": "LvAccess",
+          "primary": "LvPrimary", "expression": "LvAssignment"}
+BINOPS = {"EqualEqual": "BEqualEqual", "NotEqual": "BNotEqual", "Less": "BLess", "LessEqual": "BLessEqual", "Greater": "BGreater",
+          "GreaterEqual": "BGreaterEqual", "Plus": "BPlus", "Minus": "BMinus", "Star": "BStar", "Slash": "BSlash", "Modulo": "BModulo"}
+
+
+def lv(name):
+    return LEVELS.get(name, "(LvUnknown_%s)" % name)
+
+
+def token_list(text):
+    """the token kinds of `match_token(&A)` / `match_tokens(&[A, B])`"""
+    m = re.search(r"match_tokens\(&\[([^\]]*)\]\)", text)
+    if m:
+        return [x.strip() for x in m.group(1).split(",") if x.strip()]
+    m = re.search(r"match_token\(&(\w+)\)", text)
+    if m:
+        return [m.group(1)]
+    raise TranslateError("operator tokens not recognised in: " + text[:80])
+
+
+def parser_tables(notes):
+    ps = strip_comments(read("parser/parser.rs"))
+    tok = strip_comments(read("lexer/token.rs"))
+    out = []
+    rungs = []
+    for fn in ["or", "and", "equality", "comparison", "addition", "multiplication"]:
+        b = fn_body(ps, fn)
+        m1 = re.search(r"let\s+mut\s+expr\s*=\s*self\.(\w+)\(\)\?", b)
+        m2 = re.search(r"while\s+(self\.match_tokens?\([^)]*\))\s*\{", b)
+        m3 = re.search(r"let\s+right\s*=\s*self\.(\w+)\(\)\?", b)
+        if not (m1 and m2 and m3):
+            raise TranslateError("ladder function `%s` not recognised" % fn)
+        ml = re.search(r"operator:\s*LogicalOp::(\w+)", b)
+        if ml:
+            mk = "MkLog L" + ml.group(1)
+        elif "to_binary_op" in b and "Expr::Binary" in b:
+            mk = "MkBin"
+        else:
+            mk = "MkUnknown"
+        # the operands of the node must be (left: expr-so-far, right: right)
+        if re.search(r"left:\s*right|right:\s*expr\b|right:\s*left", b):
+            mk = "MkSwapped"
+        rungs.append("(%s, mkRung [%s] %s %s (%s))" % (lv(fn), "; ".join(tkname(t) for t in token_list(m2.group(1))),
+                                                      lv(m1.group(1)), lv(m3.group(1)), mk))
+    out.append("Definition ladder : list (level * rung) := [\n  " + ";\n  ".join(rungs) + "].\n")
+
+    b = fn_body(ps, "unary")
+    m2 = re.search(r"if\s+(self\.match_tokens?\([^)]*\))\s*\{", b)
+    m3 = re.search(r"let\s+right\s*=\s*self\.(\w+)\(\)\?", b)
+    m4 = re.search(r"else\s*\{\s*self\.(\w+)\(\)\s*\}", b)
+    if not (m2 and m3 and m4):
+        raise TranslateError("`unary` not recognised")
+    out.append("Definition unary_ops : list tk := [%s].\nDefinition unary_operand : level := %s.\nDefinition unary_else : level := %s.\n" % (
+        "; ".join(tkname(t) for t in token_list(m2.group(1))), lv(m3.group(1)), lv(m4.group(1))))
+
+    b = fn_body(ps, "assignment")
+    m1 = re.search(r"let\s+expr\s*=\s*self\.(\w+)\(\)\?", b)
+    m3 = re.search(r"let\s+value\s*=\s*self\.(\w+)\(\)\?", b)
+    b2 = fn_body(ps, "expression")
+    m5 = re.search(r"self\.(\w+)\(\)", b2)
+    b3 = fn_body(ps, "access")
+    m6 = re.search(r"let\s+mut\s+expr\s*=\s*self\.(\w+)\(\)\?", b3)
+    if not (m1 and m3 and m5 and m6):
+        raise TranslateError("`assignment`/`expression`/`access` not recognised")
+    out.append("Definition assignment_first : level := %s.\nDefinition assignment_value : level := %s.\n"
+               "Definition expression_entry : level := %s.\nDefinition access_first : level := %s.\n" % (
+                   lv(m1.group(1)), lv(m3.group(1)), lv(m5.group(1)), lv(m6.group(1))))
+
+    b = fn_body(tok, "to_binary_op")
+    pairs = re.findall(r"TokenType::(\w+)\s*=>\s*Ok\(BinaryOp::(\w+)\)", b)
+    out.append("Definition binop_of_token : list (tk * binop) := [" + "; ".join(
+        "(%s, %s)" % (tkname(a), BINOPS.get(c, "BUnknown_" + c)) for a, c in pairs) + "].\n")
+    b = fn_body(tok, "to_unary_op")
+    pairs = re.findall(r"TokenType::(\w+)\s*=>\s*Ok\(UnaryOp::(\w+)\)", b)
+    out.append("Definition unop_of_token : list (tk * unop) := [" + "; ".join(
+        "(%s, U%s)" % (tkname(a), c) for a, c in pairs) + "].\n")
+
+    b = fn_body(ps, "synchronize")
+    m = re.search(r"match\s+self\.peek\(\)\.token_type\s*\{\s*([\w\s|]+?)=>", b)
+    if not m:
+        raise TranslateError("`synchronize` keyword set not recognised")
+    out.append("Definition sync_set : list tk := [" + "; ".join(tkname(x.strip()) for x in m.group(1).split("|") if x.strip()) + "].\n")
+    adv = len(re.findall(r"self\.advance\(\)", b))
+    out.append("Definition sync_advances_first : bool := %s.\n" % ("true" if re.match(r"\s*self\.advance\(\)\s*;", b) else "false"))
+    return "".join(out)
+
+
 def regenerate():
     notes = []
     parts = ["(** GENERATED by /verif/vlib/translate.py from /repo/src on every check run. Do not edit. *)\n",
-             "From Aplang Require Import Base Token.\nOpen Scope N_scope.\n\n"]
+             "From Aplang Require Import Base Token Ast.\nOpen Scope N_scope.\n\n"]
     parts.append("(* ---- lexer tables: src/lexer/token.rs, src/lexer/lexer.rs *)\n")
     parts.append(lexer_tables(notes))
+    parts.append("\n(* ---- parser tables: src/parser/parser.rs, src/lexer/token.rs *)\n")
+    parts.append(parser_tables(notes))
     text = "".join(parts)
     os.makedirs(os.path.dirname(OUT), exist_ok=True)
     old = open(OUT).read() if os.path.exists(OUT) else None
